@@ -20,8 +20,10 @@ EXPECT = {
     # case:                         fchk        molden      molekel     wfn         wfx
     "plain restricted":            ((P, P),     (P, P),     (P, P),     (P, P),     (P, P)),
     "plain unrestricted":          ((P, P),     (P, P),     (P, P),     (P, P),     (P, P)),
-    "no orbitals":                 (None,       (E, E),     (E, E),     (E, E),     (E, E)),
-    "no basis":                    ((E, E),     (E, E),     (E, E),     (E, E),     (E, E)),
+    # "declared": an object lacking the attribute is refused (E) iff the writer declares it as required; otherwise the
+    # writer has to accept it (P) -- objects carrying everything the documentation requires must not be refused
+    "no orbitals":                 ("mo",       "mo",       "mo",       "mo",       "mo"),
+    "no basis":                    ("obasis",   "obasis",   "obasis",   "obasis",   "obasis"),
     "generalized orbitals":        ((E, E),     (E, E),     (E, E),     (E, E),     (E, E)),
     "ROHF, hole below":            ((E, E),     (P, P),     (P, P),     (P, P),     (P, P)),
     "fractional occupations":      ((E, E),     (P, P),     (P, P),     (P, P),     (P, P)),
@@ -31,6 +33,7 @@ EXPECT = {
     "pure d shell":                ((P, P),     (P, P),     (P, P),     (E, E),     (E, E)),
     "SP shell":                    ((P, P),     (E, C),     (E, C),     (E, C),     (E, C)),
     "SS generalized contraction":  ((E, C),     (E, C),     (E, C),     (E, C),     (E, C)),
+    "PD shell, Cartesian p + pure d": ((E, C),   (E, C),     (E, C),     (E, E),     (E, E)),
 }
 FORMATS = ("fchk", "molden", "molekel", "wfn", "wfx")
 WHY = {
@@ -39,6 +42,7 @@ WHY = {
     "unrestricted, beta hole": "FCHK: the beta occupations must be aufbau as well",
     "unrestricted, alpha hole": "FCHK: the alpha occupations must be aufbau",
     "pure d shell": "WFN / WFX primitives are Cartesian only",
+    "PD shell, Cartesian p + pure d": "WFN / WFX primitives are Cartesian only, also when the pure contraction is not the first of its shell",
     "SP shell": "only FCHK can store SP shells; the others need segmented shells",
     "SS generalized contraction": "no format stores general contractions",
     "explicit occs_aminusb": "no format stores alpha-minus-beta occupations of restricted orbitals: they are written as unrestricted orbitals",
@@ -78,6 +82,7 @@ def _objects(prog):
         "pure d shell": lambda: mk(obasis=basis(shell([0], ["c"]), shell([2], ["p"]))),
         "SP shell": lambda: mk(obasis=basis(shell([0, 1], ["c", "c"]))),
         "SS generalized contraction": lambda: mk(obasis=basis(shell([0, 0], ["c", "c"]))),
+        "PD shell, Cartesian p + pure d": lambda: mk(obasis=basis(shell([1, 2], ["c", "p"]))),
     }
 
 
@@ -86,6 +91,13 @@ def check_guard_semantics(ctx, rid):
     mo_cls = prog.cls("iodata.orbitals.MolecularOrbitals")
     objs = _objects(prog)
     ncell = 0
+    from ..consteval import ConstEval
+    from .c17 import declared_lists
+
+    required = {}
+    for mod, f_, dname, lists, dnode, fmt in declared_lists(prog, ConstEval(prog)):
+        if f_.name == "dump_one":
+            required[mod.short] = set(lists.get("required", []))
     try:
         for fi, short in enumerate(FORMATS):
             g = prog.format_op(short, "prepare_dump")
@@ -97,6 +109,9 @@ def check_guard_semantics(ctx, rid):
                 want = row[fi]
                 if want is None:
                     continue
+                declared_case = isinstance(want, str)
+                if declared_case:
+                    want = (E, E) if want in required.get(short, set()) else (P, P)
                 for ai, allow in enumerate((False, True)):
                     data = objs[case]()
                     ev = AccessorEval(prog, mo_cls, limit=4000)
@@ -111,7 +126,7 @@ def check_guard_semantics(ctx, rid):
                         got = E
                     ncell += 1
                     if got != want[ai]:
-                        bad.append((case, allow, got, want[ai]))
+                        bad.append((case, allow, got, want[ai] + (f" ({short}.dump_one declares {sorted(required.get(short, []))} as required" + ("" if want[ai] == E else f": `{row[fi]}` is optional, so an object without it must be accepted") + ")" if declared_case else "")))
             if bad:
                 for case, allow, got, want in bad[:4]:
                     ctx.violate(rid, f"{short}.prepare_dump, {case}, allow_changes={allow}: {got}, expected {want}" + (f" ({WHY[case]})" if case in WHY else ""), g, g.node, construct=f"{short} prepare_dump {case} allow={allow}: {got}")
